@@ -227,6 +227,19 @@ CHECKS = {
         'clauses of the C09, C10, C15, C16 and C17 searches cover the same property on their state spaces.',
         'Trusted: the observation vector reads only public accessors; only DOM exceptions are judged (foreign exception types are counted in the evidence).',
     ),
+    'C06': (
+        'exploration',
+        'exhaustive enumeration of preference assignments (every single value of every preference, all pairs, the minified preset with bounded deviations, triples and the full 2^14 boolean cube in thorough) x a 19-sheet corpus, against a reference transformer written from the Preferences documentation',
+        'DESIGN.md 3/C06',
+        'All 34 single deviations of the 25 preferences, all 551 pairs, useMinified() plus <=1 (quick) / <=2 (thorough) further deviations, and in thorough '
+        'all triples of content-affecting deviations and the full cube of the 14 content booleans on 8 sheets, are applied to the process-wide serializer '
+        '(and to a private serializer installed with setSerializer, and through csscombine) on a corpus in which every filter has something to remove and '
+        'something to keep. Clauses: the output reparses without new errors; proj(reparse) equals the documented effect applied to proj(DOM); token-level '
+        'expectations (literal at-keywords / names / priorities, hash shortening, leading zeros, last semicolon, no comment tokens); pure layout preferences '
+        'leave the non-white-space token sequence unchanged; useDefaults() restores the default bytes; a rule serialised alone has the tokens it has inside '
+        'its sheet. Failing assignments are reduced greedily to the 1-minimal set of deviating preferences.',
+        'Trusted: mc/model/ref_prefs.py (compositional, written from the Preferences docstring); leniencies listed in the evidence (the ";" stays when a comment or filtered declaration follows the last declaration - pinned by repository tests).',
+    ),
 }
 
 PENDING = {}
